@@ -13,7 +13,56 @@ HASH_TB = [
     "fields are compared as unsigned representations (two's complement, IEEE bit patterns, Unix seconds)",
 ]
 
+RT_TB = [
+    "modelled, differentially validated: ParseRealtime (extension pre-pass, merge loop, link resolution, sorts), parseAlert, extensions/nycttrips, extensions/nyctalerts as Gtfs.Rt.* (hand-written Lean model over the decoded FeedMessage; compared on every generated message, all fields, through the public API)",
+    "model boundary: protobuf-go Unmarshal / HasExtension / GetExtension (trusted; the harness builds messages with proto.Marshal and feeds the bytes to ParseRealtime)",
+    "regexp on the fixed patterns startTimeRegex, startDateRegex, TripIDRegex, elevatorAlertIDRegex: hand-written matchers, the pattern texts are regenerated from the source and pinned by theorems, the matchers are differentially validated",
+    "time.Date / time.Unix / Location: a date is its civil day number (Gtfs.Civil, Hinnant's algorithm with time.Date's normalisation), an instant its Unix seconds; the zone a result is expressed in is observed on the implementation by the canonicaliser (named zones with dates 1990-2034, no transition at local midnight)",
+    "Go maps as association lists; sort.Slice as List.mergeSort (keys are distinct where the output is claimed); strconv.Atoi without overflow; encoding/json of the NYCT metadata is opaque (marker text)",
+    "enum decoders, enum numbers and NYCT tables are regenerated from the source (Gen.Enums, Gen.NyctTables)",
+]
+
 PROPS = {
+    "C02": {
+        "module": "GtfsVerif.Props.C02",
+        "trusted_base": RT_TB,
+        "partial": ["'exactly one Trip per distinct descriptor / one Vehicle per distinct vehicle' is split: uniqueness and order for all messages are theorems (C07_trips_sorted_unique, C07_vehicles_unique_ids), presence of every mentioned descriptor with its own entity's data is C07_own_entity_wins plus the oracle against the wire values",
+                    "'local midnight in a DST zone' is observed on the implementation (canonicaliser: every start date must read 00:00:00 in the configured location); the Lean theorem is about the civil day number"],
+        "assumptions": ["protobuf required fields are present after Unmarshal (header, entity id, trip of a trip update)"],
+    },
+    "C04": {
+        "module": "GtfsVerif.Props.C04",
+        "trusted_base": RT_TB,
+        "partial": ["pointer identity (t.Vehicle.Trip.Vehicle == t.Vehicle) is a runtime fact checked by the oracle's pointer walk; the theorems are about the association tables and the data each reference reaches",
+                    "invariance under entity order is inherited from C07 (partial there)"],
+        "assumptions": [],
+    },
+    "C07": {
+        "module": "GtfsVerif.Props.C07",
+        "trusted_base": RT_TB,
+        "partial": ["permutation invariance for conflict-free messages is not yet one theorem: proved are sortedness/uniqueness for every message, own-entity-wins wherever the own entity stands, commutation of mentions of different trips; the composition is carried by the correspondence (6 entity orders per case on model and implementation)"],
+        "assumptions": [],
+    },
+    "C12": {
+        "module": "GtfsVerif.Props.C12",
+        "trusted_base": RT_TB,
+        "partial": [],
+        "assumptions": [],
+    },
+    "C16": {
+        "module": "GtfsVerif.Props.C16",
+        "trusted_base": RT_TB,
+        "partial": ["transparency is proved per entity (pre-pass and track reporting leave plain entities alone); the message-level statement follows because the merge loop is the same function for both extensions and is checked by the oracle (parse with vs without extension on the plain entities)",
+                    "trip ids containing invalid UTF-8 in the two wildcard positions are outside the matcher model"],
+        "assumptions": [],
+    },
+    "C17": {
+        "module": "GtfsVerif.Props.C17",
+        "trusted_base": RT_TB,
+        "partial": ["elevator grouping over a whole feed ('exactly one output alert per group at its first member's position') is proved per step (first member kept under the documented id, later members skipped, stops a duplicate-free set) and checked end to end by the oracle; the fold-level theorem is not yet stated as one theorem",
+                    "the JSON text of the NYCT metadata is opaque in the model (a marker); its presence is modelled exactly"],
+        "assumptions": [],
+    },
     "C13": {
         "module": "GtfsVerif.Props.C13",
         "trusted_base": HASH_TB,
@@ -50,6 +99,36 @@ PROPS = {
 }
 
 MANIFEST_TEXT = {
+    "C02": {
+        "text": "Theorems over the realtime model for all decoded messages: timestamps are the same instant (identity below 2^63, two's complement above), delay/time/uncertainty and every optional vehicle field carried over with absent staying absent, HH:MM:SS to seconds for all two-digit triples, YYYYMMDD to the civil day (normalisation is the identity on valid dates), direction and enum decoders over the regenerated tables, one Alert per non-skipped alert entity in feed order (closed form of the merge loop), regex texts pinned. The model is compared field by field with ParseRealtime on generated conflict-free messages in 8 zones and the oracle compares the result with the wire values.",
+        "note": "Trusted: Lean kernel, protobuf-go, time package (zone presentation observed, not proved), harness. 'One Trip per distinct descriptor' is split between C07's theorems and the oracle (see evidence.partial).",
+        "technique": "Lean 4 proof over a model of ParseRealtime + differential correspondence and wire-truth oracle",
+    },
+    "C04": {
+        "text": "Theorems: an entity associating a trip with a vehicle records the association both ways (trip update with vehicle descriptor; vehicle position with trip descriptor; id-less vehicle as a positional link), and link resolution makes the two result entries reach each other's data (with id and id-less), nil when no association. The oracle walks the real pointers (mutual, content equal to the list entries, nil exactly when unassociated) on conflict-free messages in several entity orders.",
+        "note": "Pointer identity is a runtime fact: observed by the oracle, not proved. Trusted: Lean kernel, harness.",
+        "technique": "Lean 4 proof over the association tables / link resolution of the model + pointer-walk oracle",
+    },
+    "C07": {
+        "text": "Theorems for every message and extension: TripID.Less is a strict total order on parser-produced identifiers (lexicographic key), Trips is strictly increasing in it (state invariant of the merge loop by induction over entities: keys distinct, well-formed, entry id = key; mergeSort sortedness), Vehicles has no duplicate identifier; own-entity-wins for any position of the own entity among references; mentions of different trips commute. Permutation invariance itself is checked on 6 entity orders per conflict-free case on model and implementation (partial).",
+        "note": "Trusted: Lean kernel, harness. sort.Slice is modelled as a sort; output claimed only where keys are distinct (proved).",
+        "technique": "Lean 4 proof (strict total order via lexicographic keys, loop invariant by induction) + permutation correspondence",
+    },
+    "C12": {
+        "text": "Decision-logic theorems for every alert: the informed entities are exactly the filterMap of the selectors (in order, exact values, trip id kept iff it identifies a trip) followed by the route fallbacks; every entity informs something; a trip id is present only if it determines a trip and is then among the trips merged into Trips; fallbacks only for routes not named explicitly, at most one per route, direction rule. Correspondence over all 2^10 presence patterns of a selector plus random multi-selector alerts; the oracle re-derives the statement from the wire.",
+        "note": "Trusted: Lean kernel, harness, regenerated enum decoders.",
+        "technique": "Lean 4 proof (closed form of the selector fold) + exhaustive presence-pattern correspondence",
+    },
+    "C16": {
+        "text": "Theorems: direction map (NORTH/absent to False, SOUTH to True), assigned trip gets the vehicle descriptor {id: train id}, track rule, the start time for every origin time below 600000 by arithmetic (n*6/10 seconds, accepted by the start-time parser), the stale filter as an iff, the M-train swap is an involution that touches only N/S at the listed stations (regenerated list), plain entities are untouched by the pre-pass. Correspondence and oracle over mixed NYCT/plain feeds, all four option combinations, boundary first-stop times.",
+        "note": "Trusted: Lean kernel, harness, hand-written matcher for TripIDRegex (text pinned, differentially validated).",
+        "technique": "Lean 4 proof (arithmetic on %02d rendering, decision logic) + differential correspondence",
+    },
+    "C17": {
+        "text": "Theorems: the priority->effect table (40 entries), the timetabled set, cause prefixes, elevator cause/effect and id formats are regenerated from the source and pinned to the documented values; effect is the fold of the priorities over the table, skip iff option and a timetabled priority, metadata iff requested, plain alerts pass through unchanged, group stops form a duplicate-free set independent of member order, first member kept under the documented id and later members skipped. Correspondence and oracle over 3 policies x 2^3 flags, all priorities.",
+        "note": "Trusted: Lean kernel, harness, hand-written matcher for the elevator id regex (text pinned), opaque metadata JSON.",
+        "technique": "Lean 4 proof over regenerated tables (decide) and the alert pre-pass model + differential correspondence",
+    },
     "C15": {
         "text": "Theorems over the BuildJournal model for all histories and windows: output strictly increasing in UID (keys of the state are distinct and every entry's UID is its key, by induction over feeds; mergeSort sortedness), selection = assigned and start in [lo,hi], Trip.update/markPast refine the abstract account (count, last observed, marked-past set once, unassigned updates ignored after assignment, assignment monotone), UID injective for non-digit-leading suffixes; the counterexample to full UID injectivity is proved and kept as known finding D17. Tied to journal.go by comparing every prefix x window of generated histories; an independent accounting oracle checks the implementation.",
         "note": "Trusted: Lean kernel, correspondence harness. Known finding D17 (UID collision when the suffix starts with a digit) is listed in KNOWN_FINDINGS.jsonl and reproduced by a dedicated probe on every run.",
